@@ -995,6 +995,10 @@ example : ∀ c ∈ ([.setitem (.tuple [.ok 5, .nonStr]) (some 1), .delitem (.tu
   intro c h; simp at h
   rcases h with rfl | rfl | rfl | rfl | rfl <;>
     simp [SCall.toOp, SKeyArg.items, classifyNames, namesBefore, SOp.valid, SOp.noSetattr, SOp.keepsName]
+/-- C15.44: both hypotheses are satisfiable (the first one also on a state where the name is stored under
+    another default: C15.45) -/
+example : key2keys (sdRun (SD.empty : SD Nat Nat) [.set [1] 10]).1.mkd 9 = none ∧
+    (sdSetDefaultName (sdRun (SD.empty : SD Nat Nat) [.set [1] 10]).1 9 20).2 = .done := by decide
 
 end ALV.Props.C15
 
